@@ -21,5 +21,9 @@ pub fn dump() {
     println!("const RICE_MAX_PARTITION_ORDER {}", c::rice::MAX_PARTITION_ORDER);
     println!("const RICE_MAX_PARTITIONS {}", c::rice::MAX_PARTITIONS);
     println!("const RICE_MIN_PARTITION_SIZE {}", c::rice::MIN_PARTITION_SIZE);
+    println!("const RICE_MAX_P_TO_BITS {}", flacenc::verif::rice::table_from_errors(&[u32::MAX; 1], 4)[0]);
+    println!("const MIN_BLOCK_SIZE_FOR_PREDICTION {}", flacenc::verif::constants::MIN_BLOCK_SIZE_FOR_PREDICTION);
+    println!("const DEFAULT_ENTROPY_ESTIMATOR_PARTITIONS {}", flacenc::verif::constants::DEFAULT_ENTROPY_ESTIMATOR_PARTITIONS);
+    println!("const MAX_ENTROPY_ESTIMATOR_PARTITIONS {}", flacenc::verif::constants::MAX_ENTROPY_ESTIMATOR_PARTITIONS);
     println!("const PAR_FRAMEBUF_MULTIPLICITY {}", c::par::FRAMEBUF_MULTIPLICITY);
 }
